@@ -383,6 +383,19 @@ impl<K: Eq + Hash + Clone, V, T: BackingContainer<K, V>> GroupingContainer<K, V,
     }
 }
 
+#[cfg(feature = "verif")]
+impl<K, V, T> GroupingContainer<K, V, T> {
+    /// Verification hook (read-only): the number of groups currently open.
+    pub fn verif_num_groups(&self) -> usize {
+        self.groups.len()
+    }
+
+    /// Verification hook (read-only): the number of end-of-group actions pending in each open group.
+    pub fn verif_group_sizes(&self) -> Vec<usize> {
+        self.groups.iter().map(HashMap::len).collect()
+    }
+}
+
 impl<K, V, T: Default> Default for GroupingContainer<K, V, T> {
     fn default() -> Self {
         Self {
